@@ -21,10 +21,13 @@ checks = [prop] + [a.split("=")[1] for a in sys.argv if a.startswith("--also=")]
 wt = Path(f"/tmp/sv-{prop.lower()}")
 subprocess.run(["git", "-C", "/repo", "worktree", "remove", "--force", str(wt)], capture_output=True)
 subprocess.check_call(["git", "-C", "/repo", "worktree", "add", "--detach", str(wt), "HEAD", "-q"])
-# private copy of /verif for the runs against the scratch tree (their translators rewrite lean/Midgard/Generated)
+# private copy of /verif for the runs against the scratch tree (their translators rewrite lean/Midgard/Generated): the
+# committed sources (other work may be editing the working tree) plus the Lean build output
 VC = Path(f"/tmp/vcs-{prop.lower()}")
-subprocess.check_call(["rsync", "-a", "--delete", "--exclude", ".git", "--exclude", "seeded", "--exclude", "evidence",
-                       "--exclude", ".lock-*", f"{V}/", f"{VC}/"])
+subprocess.run(["rm", "-rf", str(VC)]); VC.mkdir(parents=True)
+subprocess.check_call(f"git -C {V} archive HEAD -- . ':!seeded' ':!evidence' | tar -x -C {VC}", shell=True)
+if subprocess.run(["rsync", "-a", f"{V}/lean/.lake", f"{VC}/lean/"]).returncode not in (0, 24):
+    raise SystemExit("rsync of the build output failed")
 base = json.load(open("/root/.vp/BASELINE.json"))
 want = set(base["stable_pass"])
 
